@@ -2,7 +2,11 @@
 (* C19 - life cycle of a data form (mellium.im/xmpp/form): a form is built from field *)
 (* constructors of every type, then the caller applies any sequence of                *)
 (*   Set(var, value of any Go type) / Get(var) / Raw(var) / Submit / TokenReader /    *)
-(*   Unmarshal (re-decode the form from its own encoding).                            *)
+(*   Unmarshal(ty) (decode a document: the form's own encoding whose type attribute   *)
+(*   is form / result / submit / cancel, missing, or not one of the four).            *)
+(* A form obtained by decoding is a form like any other: EVERY operation applies to   *)
+(* it whatever its type, and the same laws hold (the actions below do not look at the *)
+(* form's type, except for what the form's own encoding contains).                    *)
 (* The specification states what the documented API promises:                         *)
 (*   - nothing panics;                                                                *)
 (*   - Set succeeds iff the value's Go type fits the field's type (a fixed field can  *)
@@ -21,8 +25,16 @@ CONSTANT MaxOps
 VARIABLES cfg,     \* sequence of field descriptors [ft, var, req, def]
           vals,    \* var -> typed value or NoVal (also for variables that are no field)
           nops,    \* operations applied so far
-          last     \* what the last operation returned (observation, for the properties)
-fvars == <<cfg, vals, nops, last>>
+          last,    \* what the last operation returned (observation, for the properties)
+          ftype    \* the type of the form held: "form" from form.New, else the type of the decoded document
+fvars == <<cfg, vals, nops, last, ftype>>
+
+(* the type attribute of a decoded document: the four types of XEP-0004, no attribute *)
+(* at all (lenient peers), a value that is none of the four (wrong case)              *)
+ValidTypes == {"form", "result", "submit", "cancel"}
+FormTypes == ValidTypes \cup {"missing", "unknown"}
+DocTypeAttr == [form |-> <<"form">>, result |-> <<"result">>, submit |-> <<"submit">>, cancel |-> <<"cancel">>,
+                missing |-> <<>>, unknown |-> <<"FORM">>]
 
 TV(k, v) == [k |-> k, v |-> v]
 NoVal == TV("unset", <<>>)
@@ -109,9 +121,20 @@ SubmitAcc(c, vs, f) ==
 (* in Codec.tla FieldNorms) and forgets the values that were set                       *)
 DefNorm(f) == LET ne == NonEmpty(f.def) IN IF KeepsAll(f.ft) \/ Len(ne) <= 1 THEN ne ELSE <<ne[1]>>
 Redecoded(c) == [i \in 1..Len(c) |-> [c[i] EXCEPT !.def = DefNorm(c[i])]]
+(* A form of type submit IS a submission: its own encoding may be the submission of   *)
+(* its fields (what Submit returns: the fields that have a value or are required,     *)
+(* each with its value; <required/> is not needed in a submission) or all fields as   *)
+(* they are - the property does not say which, both are accepted.                     *)
+RECURSIVE SeqProd(_)
+SeqProd(ss) == IF ss = <<>> THEN {<<>>} ELSE {<<h>> \o t : h \in ss[1], t \in SeqProd(Tail(ss))}
+SubmissionForms(c, vs) ==
+  LET sub == Submitted(c, vs)
+  IN SeqProd([i \in 1..Len(sub) |->
+                {[sub[i] EXCEPT !.def = d, !.req = r] : d \in SubmitAcc(c, vs, sub[i]), r \in {sub[i].req, FALSE}}])
+OwnEncodings(c, vs, ty) == {Redecoded(c)} \cup (IF ty = "submit" THEN SubmissionForms(c, vs) ELSE {})
 
 (* ------------------------------------------------------------------ actions *)
-Init == cfg \in Configs /\ vals = [v \in Vars |-> NoVal] /\ nops = 0 /\ last = [op |-> "new"]
+Init == cfg \in Configs /\ vals = [v \in Vars |-> NoVal] /\ nops = 0 /\ last = [op |-> "new"] /\ ftype = "form"
 
 Set(var, tv) ==
   /\ nops < MaxOps
@@ -119,39 +142,46 @@ Set(var, tv) ==
          fits == IF isf THEN Fits(FieldOf(cfg, var)[1].ft, tv.k) ELSE TRUE
      IN /\ vals' = IF fits THEN [vals EXCEPT ![var] = tv] ELSE vals
         /\ last' = [op |-> "set", var |-> var, tv |-> tv, ok |-> isf /\ fits, err |-> ~fits]
-  /\ nops' = nops + 1 /\ UNCHANGED cfg
+  /\ nops' = nops + 1 /\ UNCHANGED <<cfg, ftype>>
 
 Get(var) ==
   /\ nops < MaxOps
   /\ LET g == GetVal(cfg, vals, var) IN last' = [op |-> "get", var |-> var, ok |-> g # NoVal, tv |-> g]
-  /\ nops' = nops + 1 /\ UNCHANGED <<cfg, vals>>
+  /\ nops' = nops + 1 /\ UNCHANGED <<cfg, vals, ftype>>
 
 Raw(var) ==
   /\ nops < MaxOps
   /\ last' = [op |-> "raw", var |-> var, ok |-> IsField(cfg, var),
               v |-> IF IsField(cfg, var) THEN FieldOf(cfg, var)[1].def ELSE <<>>]
-  /\ nops' = nops + 1 /\ UNCHANGED <<cfg, vals>>
+  /\ nops' = nops + 1 /\ UNCHANGED <<cfg, vals, ftype>>
 
 Submit ==
   /\ nops < MaxOps
   /\ last' = [op |-> "submit", ok |-> SubmitOK(cfg, vals), fields |-> Submitted(cfg, vals)]
-  /\ nops' = nops + 1 /\ UNCHANGED <<cfg, vals>>
+  /\ nops' = nops + 1 /\ UNCHANGED <<cfg, vals, ftype>>
 
 Encode ==            \* TokenReader of the form itself: no effect, must be well-formed
-  /\ nops < MaxOps /\ last' = [op |-> "tokenreader"] /\ nops' = nops + 1 /\ UNCHANGED <<cfg, vals>>
+  /\ nops < MaxOps /\ last' = [op |-> "tokenreader"] /\ nops' = nops + 1 /\ UNCHANGED <<cfg, vals, ftype>>
 
-Unmarshal ==
+(* decode the form's own encoding with the type attribute of ty: the result is a form *)
+(* of that type with the same fields and no values                                    *)
+Unmarshal(ty) ==
   /\ nops < MaxOps
-  /\ cfg' = Redecoded(cfg) /\ vals' = [v \in Vars |-> NoVal]
-  /\ last' = [op |-> "unmarshal"] /\ nops' = nops + 1
+  /\ cfg' \in OwnEncodings(cfg, vals, ftype) /\ vals' = [v \in Vars |-> NoVal] /\ ftype' = ty
+  /\ last' = [op |-> "unmarshal", ty |-> ty, ok |-> TRUE] /\ nops' = nops + 1
+(* "unmarshalling arbitrary XML returns a value or an error": a document whose type is *)
+(* none of the four defined ones may be refused; the caller keeps the form it had      *)
+UnmarshalRefused(ty) ==
+  /\ nops < MaxOps /\ ty \notin ValidTypes
+  /\ last' = [op |-> "unmarshal", ty |-> ty, ok |-> FALSE] /\ nops' = nops + 1 /\ UNCHANGED <<cfg, vals, ftype>>
 
 Next == (\E var \in Vars, tv \in SetValues : Set(var, tv)) \/ (\E var \in Vars : Get(var) \/ Raw(var))
-        \/ Submit \/ Encode \/ Unmarshal
+        \/ Submit \/ Encode \/ (\E ty \in FormTypes : Unmarshal(ty) \/ UnmarshalRefused(ty))
 Spec == Init /\ [][Next]_fvars
 
 (* ------------------------------------------------------------------ properties (design check) *)
 TypeOK == /\ \A v \in Vars : vals[v] \in SetValues \cup {NoVal}
-          /\ nops \in 0..MaxOps
+          /\ nops \in 0..MaxOps /\ ftype \in FormTypes
 (* a stored value always fits its field: Set succeeds iff the type fits *)
 C19_StoredFits == \A v \in Vars : (vals[v] # NoVal /\ IsField(cfg, v)) => Fits(FieldOf(cfg, v)[1].ft, vals[v].k)
 C19_SetIffFits == last.op = "set" =>
@@ -172,4 +202,11 @@ C19_SubmitValuesDefined == \A i \in 1..Len(cfg) :
                              \A vs \in SubmitAcc(cfg, vals, cfg[i]) : \A k \in 1..Len(vs) : vs[k] \in DOMAIN StrSym
 (* Set never changes the fields; only Unmarshal does, and it is idempotent *)
 C19_FieldsStable == [][(last'.op # "unmarshal" => cfg' = cfg) /\ (Redecoded(Redecoded(cfg)) = Redecoded(cfg))]_fvars
+(* only decoding changes the type of the form held; decoding forgets the values; a refused document changes nothing *)
+C19_TypeStable == [][/\ (last'.op # "unmarshal" => ftype' = ftype)
+                     /\ (last'.op = "unmarshal" =>
+                           IF last'.ok THEN ftype' = last'.ty /\ \A v \in Vars : vals'[v] = NoVal
+                           ELSE ftype' = ftype /\ cfg' = cfg /\ vals' = vals)]_fvars
+(* the laws of Set / Get hold for a decoded form of every type: every (type, operation) pair is reachable *)
+C19_DecodedFormsUsable == \A v \in Vars : (vals[v] # NoVal /\ ftype # "form") => GetVal(cfg, vals, v) = vals[v]
 =============================================================================
